@@ -78,6 +78,19 @@ fn apply1(vm: &mut Vm<Aux>, f: Value, a: Value) -> NR {
 fn apply2(vm: &mut Vm<Aux>, f: Value, a: Value, b: Value) -> NR {
     reenter(vm, f, &[a, b])
 }
+/// a host function that survives a failing callback: the error is swallowed, nil is returned
+fn try1(vm: &mut Vm<Aux>, f: Value, a: Value) -> NR {
+    match reenter(vm, f, &[a]) {
+        Ok(v) => Ok(v),
+        Err(_) => Ok(Value::Nil),
+    }
+}
+/// calls `factory()` and then calls what it returned with `x`: the returned function value (a closure, typically) is
+/// held by nothing but this Rust local and, while it runs, by its own call frame
+fn chain2(vm: &mut Vm<Aux>, factory: Value, x: Value) -> NR {
+    let c = reenter(vm, factory, &[])?;
+    reenter(vm, c, &[x])
+}
 fn fail(vm: &mut Vm<Aux>) -> NR {
     vm.auxiliary_data.native_calls += 1;
     Err(ExecutionErrorPayload::invalid_argument("the host function failed on purpose"))
@@ -145,6 +158,8 @@ pub fn native_specs() -> HashMap<String, NativeSpec> {
     m.insert("wrap3".to_string(), NativeSpec::Wrap(3));
     m.insert("wrap4".to_string(), NativeSpec::Wrap(4));
     m.insert("keep1".to_string(), NativeSpec::Keep);
+    m.insert("try1".to_string(), NativeSpec::Try);
+    m.insert("chain2".to_string(), NativeSpec::Chain2);
     m.insert("concat".to_string(), NativeSpec::Concat);
     m
 }
@@ -166,6 +181,8 @@ pub fn register_natives(vm: &mut Vm<Aux>) {
     vm.register_native_function("wrap3", into_f3(wrap3)).unwrap();
     vm.register_native_function("wrap4", into_f4(wrap4)).unwrap();
     vm.register_native_function("keep1", into_f2(keep1)).unwrap();
+    vm.register_native_function("try1", into_f2(try1)).unwrap();
+    vm.register_native_function("chain2", into_f2(chain2)).unwrap();
     vm.register_native_function("concat", into_f2(concat)).unwrap();
 }
 
